@@ -12,6 +12,10 @@ pub struct ThreadResult {
     pub removed: u32,
     pub first: u32,
     pub last: u32,
+    /// pre-order of a treap merged from three nodes whose priorities were set EQUAL by hand (values
+    /// relative to the thread's base): with ties the shape is decided by the tie-break rule alone, which
+    /// must not depend on what other threads are doing
+    pub tie_shape: Vec<u32>,
 }
 
 #[derive(Clone, Debug, PartialEq, Eq, PartialOrd, Ord)]
@@ -79,7 +83,25 @@ pub fn script(t: u32, k: usize, serial: Option<Arc<Mutex<()>>>) -> ThreadResult 
     let first = tr.first().map_or(u32::MAX, |x| x.val);
     let last = tr.last().map_or(u32::MAX, |x| x.val);
     let seq: Vec<u32> = tr.collect().iter().map(|x| x.val).collect();
-    ThreadResult { prios, seq, size, removed, first, last }
+    // three single nodes with the same hand-set priority (struct literal: nothing is drawn)
+    let tied = |v: u32| Treap { root: Some(Box::new(TreapNode { item: It { val: v, size: 1 }, priority: 7, left: None, right: None })) };
+    let ab = op!(Treap::merge(tied(1), tied(2)));
+    thread::yield_now();
+    let abc = op!(Treap::merge(ab, tied(3)));
+    thread::yield_now();
+    let (x, y) = op!(abc.split_at(1));
+    let back = op!(Treap::merge(x, y));
+    let mut tie_shape = vec![];
+    fn pre(n: &Option<Box<TreapNode<It>>>, out: &mut Vec<u32>) {
+        if let Some(b) = n {
+            out.push(b.item.val);
+            pre(&b.left, out);
+            out.push(0);
+            pre(&b.right, out);
+        }
+    }
+    pre(&back.root, &mut tie_shape);
+    ThreadResult { prios, seq, size, removed, first, last, tie_shape }
 }
 
 /// The same script on a plain vector.
@@ -94,9 +116,11 @@ pub fn expected(t: u32, k: usize) -> (Vec<u32>, u32) {
     (w, removed)
 }
 
-pub fn run_once(threads: u32, k: usize, serial: bool) -> Outcome {
+/// `cold`: the main thread creates no node before spawning, so the threads' first node creations are the
+/// first of the whole process (lazily initialised shared state is still uninitialised).
+pub fn run_once(threads: u32, k: usize, serial: bool, cold: bool) -> Outcome {
     let lock = if serial { Some(Arc::new(Mutex::new(()))) } else { None };
-    let main = TreapNode::new(It { val: 0, size: 1 }).priority;
+    let main = if cold { 0 } else { TreapNode::new(It { val: 0, size: 1 }).priority };
     let hs: Vec<_> = (1..=threads)
         .map(|t| {
             let l = lock.clone();
@@ -113,8 +137,8 @@ pub fn outcome_json(o: &Outcome) -> String {
         .iter()
         .map(|t| {
             format!(
-                "{{\"prios\":{:?},\"seq\":{:?},\"size\":{},\"removed\":{},\"first\":{},\"last\":{}}}",
-                t.prios, t.seq, t.size, t.removed, t.first, t.last
+                "{{\"prios\":{:?},\"seq\":{:?},\"size\":{},\"removed\":{},\"first\":{},\"last\":{},\"tie_shape\":{:?}}}",
+                t.prios, t.seq, t.size, t.removed, t.first, t.last, t.tie_shape
             )
         })
         .collect();
@@ -122,8 +146,11 @@ pub fn outcome_json(o: &Outcome) -> String {
 }
 
 /// Results that do not depend on priorities must equal the script run on a vector.
-pub fn check_results(o: &Outcome, k: usize) -> Result<(), String> {
+pub fn check_results(o: &Outcome, k: usize, solo_tie_shape: &[u32]) -> Result<(), String> {
     for (i, t) in o.threads.iter().enumerate() {
+        if t.tie_shape != solo_tie_shape {
+            return Err(format!("thread {} merged three equal-priority nodes into the shape {:?} (pre-order, 0 = end of left subtree); the same operations alone give {:?}", i + 1, t.tie_shape, solo_tie_shape));
+        }
         let (seq, removed) = expected(i as u32 + 1, k);
         if t.seq != seq || t.removed != removed || t.size != seq.len() || Some(&t.first) != seq.first() || Some(&t.last) != seq.last() {
             return Err(format!("thread {} observed seq {:?} removed {} size {} first {} last {}; the same operations alone give seq {:?} removed {}", i + 1, t.seq, t.removed, t.size, t.first, t.last, seq, removed));
